@@ -138,9 +138,6 @@ pub open spec fn f_expect_ok(hs: Seq<Header>) -> bool {
     !has_hdr(hs, "Expect"@) || eq_ic(first_value(hs, "Expect"@), "100-continue"@)
 }
 pub open spec fn f_continue(hs: Seq<Header>) -> bool { has_hdr(hs, "Expect"@) && eq_ic(first_value(hs, "Expect"@), "100-continue"@) }
-pub open spec fn f_upgrade(hs: Seq<Header>) -> bool {
-    has_hdr(hs, "Connection"@) && seq_contains(lower(first_value(hs, "Connection"@)), "upgrade"@)
-}
 /// the body the request must deliver, as a function of the headers and of the bytes the source will yield
 pub open spec fn f_body(hs: Seq<Header>, src: Seq<u8>) -> Seq<u8> {
     if f_upgrade(hs) { src }                                     // protocol upgrade: all remaining bytes verbatim
